@@ -446,6 +446,21 @@ func genWire(tier string) []proto.Item {
 			items = append(items, proto.Item{Scn: s, Class: fmt.Sprintf("wire/%s/r1-5/destination-answers-with-time-exceeded", v), Note: map[string]string{"want_len": "3"}})
 		}
 	}
+	// UDP: a router (a firewall on the path) rejects a probe with a destination-unreachable of its own - host, administratively
+	// prohibited, port -: an answered hop like any other, early or late, on every schedule
+	for _, v := range proto.Variants {
+		vi := proto.Info(v)
+		if vi.Kind != "udp4" && vi.Kind != "udp6" {
+			continue
+		}
+		for _, form := range []string{"duHost", "duAdmin", "duPort"} {
+			for _, d := range []int{3000, 95000} {
+				s := proto.Scn{Variant: v, First: 1, Last: 5, Dest: 4, IPIDBase: 700, EchoBase: 71, TimeoutMs: 300, DelayMs: 10, Bound: 1}
+				s.Hops = map[int]proto.HopSpec{2: {Form: form, DelayUs: d}}
+				items = append(items, proto.Item{Scn: s, Class: fmt.Sprintf("wire/%s/r1-5/router-answers-%s", v, form)})
+			}
+		}
+	}
 	// the reply that matters is the one to the LAST probed TTL: the destination is first reached exactly there, or the path
 	// is longer and a router answers it
 	for _, v := range proto.Variants {
